@@ -78,16 +78,25 @@ func u64Params(vals ...uint64) []param {
 }
 
 func (e *engine) runC37() {
-	e.rep.Rule = "for each of the 14 directive types (every IsEquivalent implementation of the repository): all ordered pairs over the product of a 2–5-value universe per constructor parameter (peer IDs: none/P1/P2; strings: empty/x/y; transport IDs 0/1/2; DialerOpts: nil / empty / address x / address x with backoff / address y; URLs: six parsed URLs differing in path, query, host, escaping) ; sessions: nil / s1 / s2 / s3 = another object with the peers of s1; private keys: nil / k1 / k2 / k3 = another object with the bytes of k1) against the real IsEquivalent; the URL's String() is computed with net/url directly; plus the cross-type sweep: three instances of every type against three of every OTHER type (all ordered pairs of different types), which must never be equivalent; distinct = distinct op line"
+	e.rep.Rule = "for each of the 14 directive types (every IsEquivalent implementation of the repository): all ordered pairs over the product of a 2–5-value universe per constructor parameter (peer IDs: none/P1/P2; strings: empty/x/y + case variant X + xy (x as proper prefix); protocol IDs p/a, p/b, P/A, p/a/x; methods GET/POST/get; transport IDs 0/1/2 + 2^32, 2^32+1 (equal to 0 / 1 below bit 32); DialerOpts: nil / empty / address x / address x with backoff / address y; URLs: eight parsed URLs differing in path, query, host, escaping, case of path / host) ; sessions: nil / s1 / s2 / s3 = another object with the peers of s1; private keys: nil / k1 / k2 / k3 = another object with the bytes of k1) against the real IsEquivalent; the URL's String() is computed with net/url directly; plus the cross-type sweep: three instances of every type against three of every OTHER type (all ordered pairs of different types), which must never be equivalent; distinct = distinct op line"
 	p1, p2 := mkPeer(1), mkPeer(101)
 	peers := strParams("", p1.id, p2.id)
-	strs := strParams("", "x", "y")
+	// strings: besides unset / two different values, a CASE variant ("X": an EqualFold comparison
+	// merges it with "x") and a value with another one as proper prefix ("xy": HasPrefix / length-
+	// truncating comparisons merge it with "x")
+	strs := strParams("", "x", "y", "X", "xy")
+	strs3 := strParams("", "x", "y")
+	protoStrs := strParams("", "p/a", "p/b", "P/A", "p/a/x")
+	// integers: besides 0 / 1 / 2, values that differ from them only above bit 31 (a comparison
+	// through uint32 / int32 merges 1<<32 with 0 and 1<<32+1 with 1)
+	wide := u64Params(0, 1, 2, 1<<32, 1<<32+1)
 	if e.a.Scale > 1 { // thorough: prefix-related and non-multihash values
 		peers = strParams("", p1.id, p2.id, p1.id[:len(p1.id)-1], "raw")
-		strs = strParams("", "x", "y", "xy", "x ")
+		strs = strParams("", "x", "y", "X", "xy", "x ")
+		wide = u64Params(0, 1, 2, 1<<32, 1<<32+1, 1<<63, 1<<16)
 	}
 	var urls []param
-	for _, t := range []string{"/a", "/b", "/a?q=1", "http://h/a", "/a%2Fb", "/a/b"} {
+	for _, t := range []string{"/a", "/b", "/a?q=1", "http://h/a", "/a%2Fb", "/a/b", "/A", "http://H/a"} {
 		pu, err := url.Parse(t)
 		if err != nil {
 			panic(err)
@@ -118,7 +127,7 @@ func (e *engine) runC37() {
 		{enc: "3", class: "key:3", v: crypto.PrivKey(k3)},
 	}
 	kinds := []dirKind{
-		{"SolicitProtocol", [][]param{strParams("p/a", "p/b"), strParams("", "c", "d"), peers, u64Params(0, 1, 2)}, func(p []param) directive.Directive {
+		{"SolicitProtocol", [][]param{strParams("p/a", "p/b", "P/A"), strParams("", "c", "d", "C"), peers, u64Params(0, 1, 2, 1<<32)}, func(p []param) directive.Directive {
 			var ctx []byte
 			if s := p[1].v.(string); s != "" {
 				ctx = []byte(s)
@@ -128,7 +137,7 @@ func (e *engine) runC37() {
 		{"EstablishLinkWithPeer", [][]param{peers, peers}, func(p []param) directive.Directive {
 			return link.NewEstablishLinkWithPeer(peer.ID(p[0].v.(string)), peer.ID(p[1].v.(string)))
 		}, false},
-		{"HandleMountedStream", [][]param{strParams("", "p/a", "p/b"), peers, peers}, func(p []param) directive.Directive {
+		{"HandleMountedStream", [][]param{protoStrs, peers, peers}, func(p []param) directive.Directive {
 			return link.NewHandleMountedStream(protocol.ID(p[0].v.(string)), peer.ID(p[1].v.(string)), peer.ID(p[2].v.(string)))
 		}, false},
 		{"DialTptAddr", [][]param{dopts, peers, peers}, func(p []param) directive.Directive {
@@ -137,7 +146,7 @@ func (e *engine) runC37() {
 		{"LookupTptAddr", [][]param{peers}, func(p []param) directive.Directive {
 			return tptaddr.NewLookupTptAddr(peer.ID(p[0].v.(string)))
 		}, false},
-		{"LookupTransport", [][]param{peers, u64Params(0, 1, 2)}, func(p []param) directive.Directive {
+		{"LookupTransport", [][]param{peers, wide}, func(p []param) directive.Directive {
 			return transport.NewLookupTransport(peer.ID(p[0].v.(string)), p[1].v.(uint64))
 		}, false},
 		{"LookupRpcService", [][]param{strs, strs}, func(p []param) directive.Directive {
@@ -146,7 +155,7 @@ func (e *engine) runC37() {
 		{"LookupRpcClient", [][]param{strs, strs}, func(p []param) directive.Directive {
 			return bifrost_rpc.NewLookupRpcClient(p[0].v.(string), p[1].v.(string))
 		}, false},
-		{"LookupHTTPHandler", [][]param{strParams("", "GET", "POST"), urls, strs}, func(p []param) directive.Directive {
+		{"LookupHTTPHandler", [][]param{strParams("", "GET", "POST", "get"), urls, strs3}, func(p []param) directive.Directive {
 			return bifrost_http.NewLookupHTTPHandler(p[0].v.(string), p[1].v.(*url.URL), p[2].v.(string))
 		}, false},
 		{"SignalPeer", [][]param{strs, peers, peers}, func(p []param) directive.Directive {
@@ -163,7 +172,7 @@ func (e *engine) runC37() {
 			k, _ := p[1].v.(crypto.PrivKey)
 			return pubsub.NewBuildChannelSubscription(p[0].v.(string), k)
 		}, true},
-		{"DiscoverRoutes", [][]param{strParams("", "p/a", "p/b"), peers, peers}, func(p []param) directive.Directive {
+		{"DiscoverRoutes", [][]param{protoStrs, peers, peers}, func(p []param) directive.Directive {
 			return router.NewDiscoverRoutesWithPeerIDs(protocol.ID(p[0].v.(string)), peer.ID(p[1].v.(string)), peer.ID(p[2].v.(string)))
 		}, false},
 	}
